@@ -1,5 +1,5 @@
 #!/usr/bin/env python3
-"""usage: tools/mk_seeded_meta.py r2|r3|r4|r5|r6|r7
+"""usage: tools/mk_seeded_meta.py r2|r3|r4|r5|r6|r7|r8
 Writes seeded/<id>-<round>m<n>/meta.json for the seeded changes of that round from the sub-agents' notes
 (heading = the change, "Needs" paragraph = what it takes to manifest) and the evaluation results."""
 import json, os, re, sys
@@ -18,6 +18,7 @@ C01-r6m3 C04-r6m2 C04-r6m3 C05-r6m1 C05-r6m3 C07-r6m1 C07-r6m3 C08-r6m2 C08-r6m3
 C17-r6m1 C17-r6m2 C18-r6m1 C18-r6m2 C18-r6m3
 C02-r7m1 C04-r7m1 C05-r7m3 C06-r7m1 C06-r7m2 C06-r7m3 C07-r7m1 C07-r7m2 C07-r7m3 C08-r7m2 C08-r7m3 C09-r7m3 C11-r7m1 C11-r7m2 C12-r7m3 C13-r7m1 C13-r7m3
 C14-r7m1 C15-r7m1 C15-r7m3 C16-r7m2 C17-r7m3 C18-r7m1 C18-r7m3
+C03-r8m2 C04-r8m1 C07-r8m2 C08-r8m2 C09-r8m3 C10-r8m2 C10-r8m3 C11-r8m1 C14-r8m1 C14-r8m2 C15-r8m2 C17-r8m1 C18-r8m2 C18-r8m3
 '''.split())
 # not evaluated before the workloads were extended (evaluation harness interrupted): first-pass status unknown
 FIRST_PASS_UNKNOWN = set('C10-r3m1 C10-r3m2 C10-r3m3 C12-r3m1 C12-r3m2'.split())
@@ -32,7 +33,7 @@ for prop in [f'C{i:02d}' for i in range(1, 19)]:
     notes = open(f'{ROOT}/seeded/{prop}-{RND}-NOTES.md').read().split('\n')
     heads = [(i, l) for i, l in enumerate(notes) if re.match(r'## [mM][123]\b', l)]
     for j, (i, l) in enumerate(heads):
-        m = re.match(r'## ([mM][123])\s*[-:\u2013\u2014]\s*(.*)', l)
+        m = re.match(r'## ([mM][123])\s*[-:\u2013\u2014]+\s*(.*)', l)
         mid, change = m.group(1).lower(), m.group(2).strip()
         end = heads[j + 1][0] if j + 1 < len(heads) else len(notes)
         sec = notes[i + 1:end]
@@ -54,7 +55,8 @@ for prop in [f'C{i:02d}' for i in range(1, 19)]:
         meta = {
             'property': prop,
             'round': int(RND[1:]),
-            'written_by': 'independent sub-agent given only the property text, the list of earlier changes to avoid, and a scratch worktree of /repo',
+            'written_by': ('independent sub-agent given only the property text and a scratch worktree of /repo' if RND == 'r8' else
+                           'independent sub-agent given only the property text, the list of earlier changes to avoid, and a scratch worktree of /repo'),
             'change': change,
             'needs_to_manifest': needs or f'see seeded/{prop}-{RND}-NOTES.md, section {mid}',
             'confirmed': {
